@@ -54,7 +54,7 @@ def case_strategy(draw):
         t = draw(st.sampled_from([0, 1, m - 1, 1023, 1024, 1025, 1026]))
         t = min(t, m - 1)
     nbad = draw(st.one_of(st.integers(0, 4), st.integers(0, 4), st.integers(0, 4), st.integers(33, 70)))    # also more than any small report queue holds
-    bad = [[draw(st.sampled_from(['few', 'many', 'empty', 'single', 'openquote'])),
+    bad = [[draw(st.sampled_from(['few', 'many', 'empty', 'single', 'openquote', 'cr'])),
             draw(st.sampled_from(['first', 'last', 'rand'])), draw(st.integers(0, 10**6))] for _ in range(nbad)]
     heuristic = draw(st.sampled_from(['MI-numba-randomized', 'MI-numba-randomized', 'max-value-coverage', 'Constant', 'correlation-Pearson']))
     if heuristic == 'correlation-Pearson' and m < 2:
@@ -122,6 +122,9 @@ def build_lines(case):
             row[ex_col] = (row[ex_col] + '-zz') if row[ex_col] else 'zz'
         return row
 
+    def plain_cell():
+        return ['a', 'b', 'c', '1', '2'][int(rng.integers(0, 5))]
+
     def malformed(kind):
         r = valid_row()
         if kind == 'few':
@@ -130,6 +133,11 @@ def build_lines(case):
             return render(r + ['extra'])
         if kind == 'empty':
             return ''
+        if kind == 'cr':
+            # a bare carriage return inside a row (old-Mac line break, stray CR): the text reader ends a line there, so this is two lines
+            parts = [plain_cell() for _ in range(ncols + 1)]
+            cut = int(rng.integers(1, ncols + 1))
+            return ','.join(parts[:cut]) + '\r' + ','.join(parts[cut:])
         if kind == 'openquote':
             # a stray quote opening a (non-last) field and never closed: the rest of THIS line is one field -> too few fields
             j = int(rng.integers(0, ncols - 1))
@@ -242,7 +250,16 @@ def oracle(case, rec):
         lines = lines[:-1]
         final_newline = True
     m, s, ncols = case['m'], case['s'], case['ncols']
-    batches, invalid = batch_model(lines, m, s, ncols)
+    if any('\r' in ln for ln in lines):
+        # universal newlines: a bare CR ends a line too; the reference works on the lines the text reader sees
+        rec.cls('bare-CR-inside-a-row')
+        text = '\n'.join(lines) + ('\n' if final_newline else '')
+        model_lines = re.split(r'\r\n|\r|\n', text)
+        if model_lines and model_lines[-1] == '':
+            model_lines = model_lines[:-1]
+    else:
+        model_lines = lines
+    batches, invalid = batch_model(model_lines, m, s, ncols)
     V = case['k'] * m + case['t']
     tail_len = V - (V // m) * m if m else 0
     on_grid_bad = len(case['bad'])
